@@ -591,6 +591,9 @@ class OrbitElements(object):
             np.pi * 2 / XMNPDA ** 3
         self.bstar = tle.bstar * AE
 
+        if not self.mean_motion > 0:
+            raise OrbitalError("Mean motion out of range: %e" % self.mean_motion)
+
         self.original_mean_motion, self.semi_major_axis = \
             self._calculate_mean_motion_and_semi_major_axis()
         self._calculate_mean_motion_and_semi_major_axis()
